@@ -60,3 +60,13 @@ Print Assumptions P256_is_field_prime.
 (* non-vacuity: a concrete in-contract operand pair *)
 Example fe_mul_inner_example : fe_mul_inner 1 0 0 0 0 2 0 0 0 0 = [2; 0; 0; 0; 0].
 Proof. vm_compute. reflexivity. Qed.
+
+(* SHA-256 streaming: for EVERY list of writes the streaming object (Model/Sha256Stream.v, mirroring
+   sha256_write / sha256_finalize: pending-block completion, direct compression of whole blocks, buffering of
+   the rest, padding through write) computes the FIPS 180-4 hash of the concatenation.  The correspondence
+   check drives the C object and this model with the same write splits. *)
+Require Import Spec.Bytes Spec.Sha256 Model.Sha256Stream Proofs.Sha256StreamProofs.
+Theorem sha256_stream_correct : forall chunks, Z.of_nat (length (concat chunks)) < 2 ^ 61 ->
+  sha256_stream chunks = sha256 (concat chunks).
+Proof. exact Proofs.Sha256StreamProofs.sha256_stream_correct. Qed.
+Print Assumptions sha256_stream_correct.
